@@ -498,7 +498,7 @@ package xmpp
 //@ func (*xmpp.Session).extractStreamFeatures(s) (f)
 //@   requires s != nil && s.transport != nil
 //@   ensures [C14.features.fresh] s.err == nil ==> freshList(f.Mechanisms.Mechanism)
-//@   ensures [C03.features.read]  count(Decoded) == old(count(Decoded)) + 1 && (s.err == nil) == last(Decoded, 1)
+//@   ensures [C03.features.read,C13.attempt.fresh]  count(Decoded) == old(count(Decoded)) + 1 && (s.err == nil) == last(Decoded, 1)
 //@   ensures s.transport == old(s.transport)
 //@   assigns s.err
 //@   emits Decoded
@@ -506,7 +506,7 @@ package xmpp
 //@ func (*xmpp.Session).init(s)
 //@   requires s != nil && s.transport != nil
 //@   ensures [C14.features.fresh] s.err == nil ==> freshList(s.Features.Mechanisms.Mechanism)
-//@   ensures [C03.features.read]  count(Decoded) == old(count(Decoded)) + 1 && (s.err == nil) == last(Decoded, 1)
+//@   ensures [C03.features.read,C13.attempt.fresh]  count(Decoded) == old(count(Decoded)) + 1 && (s.err == nil) == last(Decoded, 1)
 //@   ensures s.transport == old(s.transport)
 //@   assigns s.err, s.Features
 //@   emits Decoded
@@ -516,8 +516,8 @@ package xmpp
 //@   emit Restarted(s) when s.err == nil
 //@   ensures [C14.features.fresh] s.err == nil ==> freshList(s.Features.Mechanisms.Mechanism)
 //@   ensures [C03.restart] count(StreamStarted) == old(count(StreamStarted)) + 1 && last(StreamStarted, 0) == s.transport
-//@   ensures [C03.restart.ok] s.err == nil ==> last(StreamStarted, 1) && count(Decoded) == old(count(Decoded)) + 1 && last(Decoded, 1) && atlast(StreamStarted) < atlast(Decoded)
-//@   ensures [C03.restart.failed] !last(StreamStarted, 1) ==> s.err != nil && count(Decoded) == old(count(Decoded))
+//@   ensures [C03.restart.ok,C13.attempt.fresh] s.err == nil ==> last(StreamStarted, 1) && count(Decoded) == old(count(Decoded)) + 1 && last(Decoded, 1) && atlast(StreamStarted) < atlast(Decoded)
+//@   ensures [C03.restart.failed,C13.attempt.fresh] !last(StreamStarted, 1) ==> s.err != nil && count(Decoded) == old(count(Decoded))
 //@   ensures s.transport == old(s.transport)
 //@   assigns s.err, s.Features, s.StreamId
 //@   emits Decoded, StreamStarted
@@ -619,6 +619,10 @@ package xmpp
 //@ func (xmpp.WebsocketTransport).StartTLS(t) (err)
 //@   ensures [C04.starttls.ws] err != nil
 //
+// Wiring of the TCP transport: what is written goes to - and what is decoded comes from - the current connection
+// (directly, or through the stream logger whose socket it is). After STARTTLS "the current connection" is the TLS one.
+//@ pred rwOn(rw, conn) := rw == conn || (typeof(rw) == *streamLogger && rw.(*streamLogger) != nil && rw.(*streamLogger).socket == conn)
+//@ pred wired(t) := t.conn != nil && rwOn(t.readWriter, t.conn) && t.decoder != nil && srcOf(srcOf(t.decoder)) == t.readWriter
 //@ func (*xmpp.XMPPTransport).StartTLS(t) (err)
 //@   requires t != nil && !t.isSecure
 //@   ensures [C04.tls.iff]    (err == nil) == t.isSecure
@@ -626,6 +630,7 @@ package xmpp
 //@   ensures [C04.tls.skip]   t.isSecure ==> last(TLSHandshake, 2) == (old(t.Config.TLSConfig) != nil && old(t.Config.TLSConfig.InsecureSkipVerify))
 //@   ensures [C04.tls.conn]   t.isSecure ==> typeof(t.conn) == *tls.Conn && t.conn.(*tls.Conn) == last(TLSHandshake, 0)
 //@   ensures [C05.transport.nodeadline] count(ReadDeadlineSet) == old(count(ReadDeadlineSet)) || last(ReadDeadlineSet, 1)
+//@   ensures [C04.tls.wired]  t.isSecure ==> wired(t)
 //@   ensures t.Config == old(t.Config)
 //@   assigns t.TLSConfig, t.isSecure, t.conn, t.readWriter, t.decoder
 //@   emits TLSHandshake, HostVerified
@@ -655,6 +660,7 @@ package xmpp
 //@   requires t != nil
 //@   emit Connected(iface(t), id) when err == nil
 //@   ensures [C04.connect.plain] err == nil ==> !t.isSecure && t.conn != nil && fresh(t.conn) && count(Dialed) == old(count(Dialed)) + 1 && last(Dialed, 0) == t.Config.Address
+//@   ensures [C04.connect.wired] err == nil ==> wired(t)
 //@   ensures [C16.connect.id] err == nil ==> headerId(id)
 //@   ensures [C05.transport.nodeadline] count(ReadDeadlineSet) == old(count(ReadDeadlineSet)) || last(ReadDeadlineSet, 1)
 //@   ensures t.Config == old(t.Config)
